@@ -4,8 +4,9 @@ use crate::dewey::{dewey_cmp, DeweyOp, DeweyVersion};
 use crate::Pattern;
 
 fn menu() -> Pattern {
-    let p = match sym::choose("pat", 6) {
+    let p = match sym::choose("pat", 7) {
         0 => "pk>=1<3",
+        6 => "pk<3",
         1 => "pk-[0-9]*",
         2 => "{pk,qk}-[0-9a]*",
         3 => "pk-1",
@@ -19,7 +20,12 @@ fn menu() -> Pattern {
 /// the first and the last '-' differ), and a symbolic version
 fn any_name(tag: &str, vlen: usize, with_mid: bool) -> String {
     let base = if sym::choose(tag, 2) == 0 { "pk" } else { "qk" };
-    let mid = if !with_mid || sym::choose(tag, 2) == 0 { String::new() } else { format!("-{}", sym::any_str(tag, "set:ab", 1, 1)) };
+    let shape = if with_mid { sym::choose(tag, 3) } else { 0 };
+    if shape == 2 {
+        // no '-' at all: never matches anything that needs a version
+        return base.to_string();
+    }
+    let mid = if shape == 0 { String::new() } else { format!("-{}", sym::any_str(tag, "set:ab", 1, 1)) };
     format!("{}{}-{}", base, mid, sym::any_str(tag, "set:0129.anb_", 0, vlen))
 }
 
@@ -52,9 +58,9 @@ fn same(a: Option<&str>, b: Option<&str>) -> bool {
 
 pub fn h_pair() {
     let p = menu();
-    let l = sym::bound(1, 2);
-    let a = any_name("a", l, true);
-    let b = any_name("b", l, true);
+    // thorough: the first candidate's version grows (every check is symmetric in the two candidates)
+    let a = any_name("a", sym::bound(1, 2), true);
+    let b = any_name("b", 1, true);
     let (ma, mb) = (p.matches(&a), p.matches(&b));
     let r = p.best_match(&a, &b);
     sym::observe_bool("ma", ma);
@@ -106,10 +112,9 @@ fn bm<'a>(p: &Pattern, x: Option<&'a str>, y: Option<&'a str>) -> Option<&'a str
 /// every order / association of pairwise reduction over three candidates gives one winner
 pub fn h_triple() {
     let p = menu();
-    let l = sym::bound(1, 2);
-    let a = any_name("a", l, false);
-    let b = any_name("b", l, false);
-    let c = any_name("c", l, false);
+    let a = any_name("a", sym::bound(1, 2), false);
+    let b = any_name("b", 1, false);
+    let c = any_name("c", 1, false);
     let (sa, sb, sc) = (Some(a.as_str()), Some(b.as_str()), Some(c.as_str()));
     let w = bm(&p, bm(&p, sa, sb), sc);
     sym::cover("winner", w.is_some());
